@@ -102,6 +102,19 @@ def check_alignment(cols, nseq):
             return "remove_terminal_gaps"
     if remove_gaps(aln).trace.tolist() != [row for row in trace if all(x != -1 for x in row)]:
         return "remove_gaps"
+    # conversions of DERIVED alignments whose rows no longer cover consecutive sequence positions (gap columns removed,
+    # every other column, a boolean column mask): the gapped strings are still the per-column symbols of the trace
+    import numpy as _np
+    derived = [("remove_gaps", remove_gaps(aln)), ("alignment[::2]", aln[::2]),
+               ("alignment[index array]", aln[_np.arange(L - 1, dtype=int)[::2]] if L > 1 else aln),
+               ("alignment[boolean mask]", aln[_np.array([i % 3 != 1 for i in range(L)])])]
+    for what, sub in derived:
+        st = sub.trace.tolist()
+        want = ["".join(strs[s][row[s]] if row[s] != -1 else "-" for row in st) for s in range(nseq)]
+        if sub.get_gapped_sequences() != want:
+            return f"gapped sequences of {what}: {sub.get_gapped_sequences()} vs {want}"
+        if len(st) and all(any(row[s] != -1 for row in st) for s in range(nseq)) and [l for l in str(sub).split("\n") if l] != want and len(st) <= 50:
+            return f"str() of {what}: {str(sub)!r} vs {want}"
     # identity
     cols_sym = [[gapped[s][i] for s in range(nseq)] for i in range(L)]
     matches = sum(1 for c in cols_sym if len(set(c)) == 1 and c[0] != "-")
